@@ -18,15 +18,44 @@
     * C10_linker_idempotent_query     queries leave no trace (true after fix 81bf063)
     * C10_pcm_region_sound_partial    one PCM header (any start offset) re-homed by add_song: the
                                       bank entry is the header of a window whose bytes are the
-                                      sample's playback window — PARTIAL: extra hypotheses fewer
-                                      than 65535 sample headers (uint16_t index) and the allocator
-                                      invariant of C14 for the current wave bank
+                                      sample's playback window — PARTIAL: the extra hypothesis is the
+                                      allocator invariant of C14 for the current wave bank
     * C10_offset_window_regression    the former D11 witness on the repaired linker
-  `C10_full_statement` keeps the whole-history statement against the spec resolver; what is
-  missing from it is said there.
+    * C10_pcm_histories               invariant over ALL histories of add_song/queries on a fresh linker:
+                                      every song of the bank was read from one of the added files, and every
+                                      patch entry serves — in the banks as they are now — what the file carried
+                                      for that slot; PCM headers address exactly the bytes of the playback window
+                                      `pcmd[position+start, +size)` inside the PCM bank get_pcm_data returns, with
+                                      the rate's pitch code, under the bank rule; data bank duplicate-free; C14's
+                                      allocator invariant
+    * C10_pcm_later_songs_keep        split histories: nothing a later song adds changes what an earlier
+                                      patch entry resolves to
+    * C10_reader_agreement            the linker's chunk walk (readSong = state-free part of add_song) and the
+                                      spec reader agree on every byte string the spec reader accepts: same
+                                      sequence, group and entries; add_song is the fold over exactly these
+    * C10_stored_once                 offsets of non-empty bank entries are equal iff the bytes are equal iff
+                                      it is the same entry; equal PCM headers iff equal address, pitch code, size
+    * C10_song_resolves_partial       every song of every history whose file the spec reader accepts passes the
+                                      spec's executable per-song resolver `LinkSpec.songOk` at its song number
+                                      (PARTIAL: bank below 4 GiB)
+    * C10_group_key_agrees            keyify = spec symbolOf, group key = spec groupOf, operator< = spec order
+    * C10_resolver_songs_partial      the bank's songs in song-number order are the spec's `ordered songs`, pairwise;
+                                      the resolver's per-song loop passes
+    * C10_full_bank_partial / _fresh  `LinkSpec.resolveBank` returns ok on the linked banks (bank half of the full statement)
+    * C10_full_headers_partial        `LinkSpec.resolveHeaders` returns ok on the generated headers (header half)
+    * C10_full_partial                = `C10_full_statement` with two extra hypotheses: linked bank below 4 GiB, fewer
+                                      than 65536 songs (both needed: 32-bit offsets, 16-bit song count)
+  `C10_full_statement` keeps the statement without these two hypotheses.
 -/
 import Ctrmml.Proofs.Linker
 import Ctrmml.Proofs.Wave
+import Ctrmml.Proofs.LinkHist
+import Ctrmml.Proofs.LinkRead
+import Ctrmml.Proofs.LinkStored
+import Ctrmml.Proofs.LinkResolve
+import Ctrmml.Proofs.LinkOrder
+import Ctrmml.Proofs.LinkBank
+import Ctrmml.Proofs.LinkHeaders
 import Ctrmml.Spec.Link
 namespace Ctrmml.Linker
 open Ctrmml
@@ -352,9 +381,9 @@ theorem C10_linker_idempotent_query (ops : List Op) (l : Linker) :
         | error e => rfl
         | ok l' => exact ih l'
 
-/-- One PCM header, with ANY start offset, re-homed by add_song (PARTIAL: fewer than
-65535 sample headers so that the `uint16_t` index is exact, and a wave bank satisfying C14's
-allocator invariant, which every bank reached from `Bank.new` by additions does).  After a successful `addPcmh`: the wave bank holds a sample `h2` whose window
+/-- One PCM header, with ANY start offset, re-homed by add_song (PARTIAL: a wave bank satisfying C14's
+allocator invariant, which every bank reached from `Bank.new` by additions does; the former bound on
+the number of sample headers is gone with fix 8d72d11).  After a successful `addPcmh`: the wave bank holds a sample `h2` whose window
 `[position, position + size)` (its start offset is 0) shows exactly the bytes
 `pcmd[position₀ + start₀, position₀ + start₀ + size)` the song's header addressed; the patch entry's data-bank entry is `pcmHeader h2`, i.e. that address
 (with the pitch code of the song's rate) and that size; the invariant is kept and no byte of any
@@ -362,7 +391,6 @@ window handed out earlier changes. -/
 theorem C10_pcm_region_sound_partial (sdata seqLen : Nat) (pcmd data : Bytes) (a a' : Acc) (rs : List Alloc.Win)
     (header : Wave.Sample) (hh : Wave.Sample.fromBytes (data.drop 4) = some header)
     (hsmall : header.size < 1073741824) (hnd : a.bank.Nodup)
-    (hcount : a.wave.samples.length < 65535)
     (inv : Wave.Inv a.wave rs) (h : addPcmh sdata seqLen pcmd data a = .ok a') :
     ∃ (h2 : Wave.Sample) (idx addr : Nat) (rs' : List Alloc.Win),
       a'.patch = a.patch ++ [(addr, idx % 65536)] ∧ a'.bank[idx]? = some (pcmHeader h2) ∧ a'.bank.Nodup ∧
@@ -396,13 +424,8 @@ theorem C10_pcm_region_sound_partial (sdata seqLen : Nat) (pcmd data : Bytes) (a
               ⟨by rw [hlen]; exact hsmall⟩
             have so := Wave.addSample_step a.wave rs _ _ w sidx inv adm hadd
             obtain ⟨s0, hs0, hread, hst, hsz, hrt⟩ := so.entry
-            -- the index is below 65536 or not: in both cases `h2` is a sample of the new bank
             have hmem : h2 ∈ w.samples := List.mem_of_getElem? hget
             have ustd := C10_unique_data_spec a.bank (pcmHeader h2) hnd
-            have hsame : sidx % 65536 = sidx := by
-              apply Nat.mod_eq_of_lt
-              rcases so.grows with ⟨g, _⟩ | ⟨g, _⟩ <;> omega
-            rw [hsame] at hget
             have es : s0 = h2 := by rw [hs0] at hget; exact Option.some.inj hget
             subst es
             refine ⟨s0, (addUnique a.bank (pcmHeader s0)).1, _, _, rfl, ustd.1, ustd.2.2.1, hmem, ?_, hsz, hrt, ?_, so.inv, ?_⟩
@@ -437,19 +460,369 @@ theorem C10_offset_window_regression :
     LinkSpec.readAt (d11Result.wave.rom.take d11Result.wave.currentSize) 0 12 = LinkSpec.readAt d11Pcmd 4 12 := by
   refine ⟨rfl, by decide, by decide, by decide⟩
 
+/-! ### whole histories -/
+
+/-- PCM regions and data entries over whole histories.  (Full since the repair of D11 — the playback
+window of a PCM header may have any start offset — and fix 8d72d11 — no bound on the number of sample
+headers.)
+
+For EVERY list of operations (add-song of any byte strings under any names, queries) that a fresh
+linker — `MDSDRV_Linker()` is `fresh 4161536 32768`; any rom of fewer than 2^24 bytes and any bank size
+— runs without an error: every song of the sequence bank was read (`readSong`, the state-free part
+of `add_song`) from one of the added files under its name, its sequence bytes are the file's, and its
+patch table has exactly one entry per `glob`/`pcmh` child of the file's `dblk` list, in file order,
+each serving (`Serves`) what that child carried — in the banks as they are NOW, after all later
+songs: the data entry is in the data bank at the recorded index; the PCM header at the recorded
+index addresses, inside the PCM bank `get_pcm_data` returns, exactly the bytes
+`pcmd[position+start, position+start+size)` (the playback window) of the song's own header, with the pitch code of the song's rate, and
+obeys the bank rule.  The data bank has no duplicates and the wave bank satisfies C14's allocator
+invariant (regions and gaps tile the used area: no two allocated regions overlap). -/
+theorem C10_pcm_histories (m bk : Nat) (hm : 0 < m) (hm24 : m < 16777216) (hb : bk < 1073741824)
+    (ops : List Op) (l : Linker) (hrun : runOps ops (Linker.fresh m bk) = .ok l) :
+    (∀ sd ∈ l.songs, ∃ name file rd, Op.add name file ∈ ops ∧ readSong file = some rd ∧
+        sd.filename = name ∧ sd.data = rd.seq ∧ All2 (Serves l) sd.patch rd.carried) ∧
+    l.dataBank.Nodup ∧ l.songs.length = (ops.flatMap Op.src).length ∧
+    ∃ rs, Wave.Inv l.wave rs := by
+  obtain ⟨rs, I, x, _⟩ := runOps_inv ops _ l [] [] (linv_fresh m bk hm (by omega) hb) hrun
+  have hmax : l.wave.maxSize < 16777216 := by
+    rw [x.same.1]; exact hm24
+  refine ⟨?_, I.nodup, ?_, rs, I.wave⟩
+  · intro sd hsd
+    obtain ⟨name, file, rd, h1, h2, h3, h4, h5⟩ := I.songs sd hsd
+    refine ⟨name, file, rd, ?_, h2, h3, h4, ?_⟩
+    · simp only [List.nil_append, List.mem_flatMap] at h1
+      obtain ⟨o, ho, hmem⟩ := h1
+      cases o with
+      | query => simp [Op.src] at hmem
+      | add n f =>
+        simp only [Op.src, List.mem_singleton, Prod.mk.injEq] at hmem
+        obtain ⟨rfl, rfl⟩ := hmem
+        exact ho
+    · exact h5.imp (serves_of_resolves l rs I.wave hmax)
+  · rw [runOps_songs_length ops _ l hrun]; simp [Linker.fresh, Linker.songs]
+
+/-- Samples and data of later songs never disturb earlier ones.
+Split any history in two: after the first part the linker is `l1`, after the whole `l`.  Then every
+song of `l1` is still a song of `l` with the same patch table; every data-bank index of `l1` holds
+the same entry in `l`; every sample header of `l1` is a header of `l`; and no byte of the window
+`[position, position + start + size)` of any sample header of `l1` has changed in the rom — so
+whatever a patch entry resolved to in `l1` it resolves to in `l`. -/
+theorem C10_pcm_later_songs_keep (m bk : Nat) (hm : 0 < m) (hm2 : m < 1073741824) (hb : bk < 1073741824)
+    (ops1 ops2 : List Op) (l1 l : Linker)
+    (h1 : runOps ops1 (Linker.fresh m bk) = .ok l1) (h2 : runOps ops2 l1 = .ok l) :
+    runOps (ops1 ++ ops2) (Linker.fresh m bk) = .ok l ∧
+    (∀ sd ∈ l1.songs, sd ∈ l.songs) ∧
+    (∀ (i : Nat) (e : Bytes), l1.dataBank[i]? = some e → l.dataBank[i]? = some e) ∧
+    (∀ s ∈ l1.wave.samples, s ∈ l.wave.samples ∧
+        Alloc.Win.reads l.wave.rom ⟨s.position, s.start + s.size⟩ = Alloc.Win.reads l1.wave.rom ⟨s.position, s.start + s.size⟩) ∧
+    (∀ q c, Resolves l1.dataBank l1.wave q c → Resolves l.dataBank l.wave q c) := by
+  obtain ⟨rs1, I1, _, _⟩ := runOps_inv ops1 _ l1 [] [] (linv_fresh m bk hm hm2 hb) h1
+  obtain ⟨rs, I, x, hs⟩ := runOps_inv ops2 l1 l rs1 _ I1 h2
+  refine ⟨by rw [runOps_append, h1]; exact h2, hs, x.bank, ?_, fun q c h => h.mono I1.wave x⟩
+  intro s hs1
+  refine ⟨x.samples s hs1, ?_⟩
+  obtain ⟨r, hr, g1, g2⟩ := I1.wave.housed s hs1
+  exact x.stable ⟨s.position, s.start + s.size⟩ ⟨r, hr, g1, by simp only; omega⟩
+
+/-! non-vacuity of the two history theorems: two files on a 64-byte rom in 16-byte banks.  File A
+(default group) carries one 8-byte sample; file B (group `sfx`) carries the same 8 bytes at another
+rate (shared data, second header), a flagged data entry and a PCM header with start offset 4 whose 16-byte
+playback window is moved to the next 16-byte bank (leaving a gap); a query in between. -/
+def exFileA : Bytes := [82, 73, 70, 70, 106, 0, 0, 0, 77, 68, 83, 48, 118, 101, 114, 32, 2, 0, 0, 0, 0, 6, 103, 114, 112, 32, 0, 0, 0, 0, 115, 101, 113, 32, 4, 0, 0, 0, 0, 2, 0, 0, 76, 73, 83, 84, 48, 0, 0, 0, 100, 98, 108, 107, 112, 99, 109, 104, 36, 0, 0, 0, 0, 0, 0, 0, 0, 0, 0, 0, 0, 0, 0, 0, 8, 0, 0, 0, 0, 0, 0, 0, 0, 0, 0, 0, 64, 31, 0, 0, 0, 0, 0, 0, 0, 0, 0, 0, 112, 99, 109, 100, 8, 0, 0, 0, 1, 2, 3, 4, 5, 6, 7, 8]
+def exFileB : Bytes := [82, 73, 70, 70, 194, 0, 0, 0, 77, 68, 83, 48, 118, 101, 114, 32, 2, 0, 0, 0, 0, 6, 103, 114, 112, 32, 3, 0, 0, 0, 115, 102, 120, 0, 115, 101, 113, 32, 9, 0, 0, 0, 0, 2, 0, 0, 0, 0, 0, 0, 9, 0, 76, 73, 83, 84, 106, 0, 0, 0, 100, 98, 108, 107, 112, 99, 109, 104, 36, 0, 0, 0, 1, 0, 0, 0, 0, 0, 0, 0, 0, 0, 0, 0, 8, 0, 0, 0, 0, 0, 0, 0, 0, 0, 0, 0, 92, 68, 0, 0, 0, 0, 0, 0, 0, 0, 0, 0, 103, 108, 111, 98, 6, 0, 0, 0, 2, 0, 0, 128, 7, 8, 112, 99, 109, 104, 36, 0, 0, 0, 0, 0, 0, 0, 8, 0, 0, 0, 4, 0, 0, 0, 16, 0, 0, 0, 0, 0, 0, 0, 0, 0, 0, 0, 64, 31, 0, 0, 0, 0, 0, 0, 0, 0, 0, 0, 112, 99, 109, 100, 28, 0, 0, 0, 1, 2, 3, 4, 5, 6, 7, 8, 50, 51, 52, 53, 54, 55, 56, 57, 58, 59, 60, 61, 62, 63, 64, 65, 66, 67, 68, 69]
+def exOps1 : List Op := [.add [97] exFileA, .query]
+def exOps2 : List Op := [.add [98] exFileB]
+def okOr (e : Except Err Linker) : Linker := match e with
+  | .ok l => l
+  | .error _ => Linker.fresh 0 0
+def isOk (e : Except Err Linker) : Bool := match e with
+  | .ok _ => true
+  | .error _ => false
+theorem ok_of_isOk (e : Except Err Linker) (h : isOk e = true) : e = .ok (okOr e) := by
+  cases e with
+  | ok l => rfl
+  | error x => cases h
+def exLinked1 : Linker := okOr (runOps exOps1 (Linker.fresh 64 16))
+def exLinked : Linker := okOr (runOps exOps2 exLinked1)
+theorem some_getD {α : Type} (o : Option α) (d : α) (h : o.isSome = true) : o = some (o.getD d) := by
+  cases o with
+  | some x => rfl
+  | none => cases h
+def exReadA : SongRead := (readSong exFileA).getD ⟨[], [], [], []⟩
+def exReadB : SongRead := (readSong exFileB).getD ⟨[], [], [], []⟩
+
+theorem exRun1 : runOps exOps1 (Linker.fresh 64 16) = .ok exLinked1 := ok_of_isOk _ (by decide +kernel)
+theorem exRun2 : runOps exOps2 exLinked1 = .ok exLinked := ok_of_isOk _ (by decide +kernel)
+
+example : exLinked.wave.samples.length = 3 ∧ exLinked.songs.length = 2 ∧ exLinked.wave.currentSize = 32 ∧
+    exLinked.dataBank.length = 4 := ⟨by decide +kernel, by decide +kernel, by decide +kernel, by decide +kernel⟩
+
+/-- the hypotheses of both history theorems are met by this history -/
+example : ∃ l, runOps (exOps1 ++ exOps2) (Linker.fresh 64 16) = .ok l ∧
+    l.songs.length = 2 :=
+  ⟨exLinked, (C10_pcm_later_songs_keep 64 16 (by omega) (by omega) (by omega) exOps1 exOps2 exLinked1 exLinked
+      exRun1 exRun2).1, by decide +kernel⟩
+
+/-! ### the two readers -/
+
+/-- The linker's reading of a file agrees with the spec's own reader on EVERY byte string the spec
+reader accepts.  `LinkSpec.parseMds` is the strict reader the resolver's expectations come from
+(its own chunk splitter on bytes); `readSong` is the state-free part of `add_song` (`RIFF(bytes)`,
+`rewind`, `get_id`, the `at_end`/`get_chunk` loop over the file with the last-chunk-wins locals, the
+version check, the `at_end`/`get_chunk` loop over the `dblk` list).  If `parseMds f = some s` then:
+(1) `readSong f` succeeds with the same sequence bytes and group bytes, and the entries it lists —
+what each `glob`/`pcmh` child carries, `Carried` — are, in file order, exactly the spec's slots
+(same slot address, flag, data bytes; for PCM the same rate, start offset and addressed bytes);
+(2) for every linker state `l` and file name, `add_song` is exactly the fold of `add_unique_data` /
+`add_sample` over those entries: it fails only if one of the entries fails (bank full, …), and
+when it succeeds the new song has the file's sequence bytes under the keyified group.
+The converse is false by design: the linker also accepts files the strict reader rejects (missing
+`grp `/`pcmd`, repeated or unknown chunks, other `LIST`s); for those `readSong`/`Carried` are the
+definition of what the song carries (C10_pcm_histories). -/
+theorem C10_reader_agreement (f : Bytes) (s : LinkSpec.SongIn) (h : LinkSpec.parseMds f = some s) :
+    ∃ rd mds, readSong f = some rd ∧ Riff.ofBytes f = .ok mds ∧
+      rd.seq = s.seq ∧ rd.group = s.group ∧ rd.carried.map (toSlot rd.pcmd) = s.slots ∧
+      (∀ (l : Linker) (name : Bytes), addSong l mds name =
+        match foldDblk rd.sdata rd.seq.length rd.pcmd rd.chunks none { bank := l.dataBank, wave := l.wave, patch := [] } with
+        | .error e => .error e
+        | .ok a => .ok { dataBank := a.bank, wave := a.wave,
+                         seqBank := seqInsert l.seqBank (groupKey rd.group) { filename := name, data := rd.seq, patch := a.patch } }) := by
+  obtain ⟨rd, h1, h2, h3, h4, _⟩ := readSong_of_parseMds f s h
+  cases ho : Riff.ofBytes f with
+  | error e =>
+    unfold readSong at h1
+    rw [ho] at h1
+    cases h1
+  | ok mds =>
+    exact ⟨rd, mds, h1, rfl, h2, h3, h4, fun l name => addSong_of_read l f mds name rd ho h1⟩
+
+/-- the spec reader accepts both example files (so the hypothesis of the theorem is met), with one and three slots -/
+example : (LinkSpec.parseMds exFileA).isSome = true ∧ ((LinkSpec.parseMds exFileB).map fun s => s.slots.length) = some 3 := by
+  constructor <;> decide +kernel
+
+/-! ### stored once -/
+
+/-- Identical data is stored once and different data is never merged, in the linked bank, for every
+linker state with a duplicate-free data bank (every state a history reaches: C10_pcm_histories)
+whose `get_seq_data` succeeds.  (1) The word the relocation writes into a pointer slot `(addr, v)` is
+`entryOffset` of data-bank entry `v mod 2^15` (bit 15 kept), and the bank shows the entry's bytes there
+(this names the offset that C10_relocation_sound only asserts to exist).  (2) Two non-empty entries
+have the same offset exactly when they are the same bytes, and then they are the same entry.
+(3) For PCM headers "the same bytes" means: the same address, the same pitch code and the same size
+(headers of windows inside a rom of at most 2^24 bytes). -/
+theorem C10_stored_once (l : Linker) (bank : Bytes) (h : getSeqData l = .ok bank) (hnd : l.dataBank.Nodup) :
+    (∀ (i : Nat) (s : SeqData), l.songs[i]? = some s → PatchWf s.data.length s.patch →
+      ∃ o d, rd bank (12 + 4 * i) 4 = be32 o ∧ rd bank (8 + o) s.data.length = d ∧
+        ∀ q ∈ s.patch, ∃ t e, entryOffset l (q.2 % 32768) = some t ∧ l.dataBank[q.2 % 32768]? = some e ∧
+          d[q.1]? = some (byteOf ((t ||| (q.2 / 32768 % 2 * 32768)) / 256)) ∧
+          d[q.1 + 1]? = some (byteOf (t ||| (q.2 / 32768 % 2 * 32768))) ∧ rd bank (8 + t) e.length = e) ∧
+    (∀ (i j : Nat) (ei ej : Bytes) (ti tj : Nat), l.dataBank[i]? = some ei → l.dataBank[j]? = some ej → ei ≠ [] → ej ≠ [] →
+      entryOffset l i = some ti → entryOffset l j = some tj → ((ti = tj ↔ ei = ej) ∧ (ei = ej ↔ i = j))) ∧
+    (∀ (s t : Wave.Sample), s.position + s.start < 16777216 → t.position + t.start < 16777216 →
+      s.size < 4294967296 → t.size < 4294967296 →
+      (pcmHeader s = pcmHeader t ↔
+        (s.position + s.start = t.position + t.start ∧ pitchCode s.rate = pitchCode t.rate ∧ s.size = t.size))) := by
+  refine ⟨?_, fun i j ei ej ti tj hi hj hni hnj h1 h2 => entryOffset_inj l hnd i j ei ej ti tj hi hj hni hnj h1 h2,
+    fun s t hs ht hss hts => pcmHeader_inj s t hs ht hss hts⟩
+  intro i s hs wf
+  have L := getSeqData_laid l bank h
+  obtain ⟨o, d, offs, hoffs, hp, h1, _, _, h4⟩ := laid_song L i s hs
+  obtain ⟨p1, _, p3⟩ := patchSong_spec offs s.patch s.data d wf hp
+  refine ⟨o, d, h1, by rw [← p1]; exact h4, ?_⟩
+  intro q hq
+  obtain ⟨t, ht, b1, b2⟩ := p3 q hq
+  have hlen := (layGen_len l.dataBank (4 + 4 * l.songs.length)).2
+  have hjl : q.2 % 32768 < l.dataBank.length := by
+    rcases Nat.lt_or_ge (q.2 % 32768) l.dataBank.length with h | h
+    · exact h
+    · rw [hoffs, List.getElem?_eq_none (by omega)] at ht; cases ht
+  obtain ⟨t', g1, _, _, _, g5⟩ := laid_entry L (q.2 % 32768) _ (List.getElem?_eq_getElem hjl)
+  rw [hoffs, g1] at ht
+  cases ht
+  exact ⟨_, _, g1, List.getElem?_eq_getElem hjl, b1, b2, g5⟩
+
+example : ∃ l bank, getSeqData l = .ok bank ∧ l.dataBank.Nodup ∧ l.dataBank.length = 2 ∧ entryOffset l 1 = some 12 :=
+  ⟨{ dataBank := [[7, 8, 9], [1]], seqBank := [([66], [{ filename := [97], data := [0, 2, 0, 0, 5], patch := [(2, 1)] }])],
+     wave := Wave.Bank.new 16 4 }, _, rfl, by decide, rfl, by decide⟩
+
+/-! ### the spec's per-song resolver on every song of every history -/
+
+/-- Every song of the linked bank passes the spec's executable per-song resolver (PARTIAL: `hbl`, the
+linked bank is shorter than 4 GiB, the range of the 32-bit table entries).  For EVERY history a fresh linker runs without error and every successful `get_seq_data`:
+song number `i + 1` of the bank was added from one of the files under its name, and if that file is
+one the spec reader accepts (`parseMds file = some s`), then `LinkSpec.songOk bank pcm i s` — the
+resolver the judge runs on the real output — returns ok: the table entry `i` holds an even offset,
+the bytes there equal the song's outside its pointer slots, and every slot resolves: the pointer word
+keeps the flag bit and addresses a bank entry that begins with the carried data, or is a PCM header
+with the rate's pitch code and the sample's size whose 24-bit address selects exactly the sample's
+bytes in the PCM bank `get_pcm_data` returns.  (What `resolveBank` adds on top: that song `i + 1` is
+the `i`-th of `LinkSpec.ordered`, the span/area checks and the list-level stored-once test.) -/
+theorem C10_song_resolves_partial (m bk : Nat) (hm : 0 < m) (hm24 : m < 16777216) (hb : bk < 1073741824)
+    (ops : List Op) (l : Linker) (hrun : runOps ops (Linker.fresh m bk) = .ok l)
+    (bank : Bytes) (hseq : getSeqData l = .ok bank) (hbl : bank.length < 4294967296) :
+    ∀ (i : Nat) (sd : SeqData), l.songs[i]? = some sd →
+      ∃ name file, Op.add name file ∈ ops ∧ sd.filename = name ∧ (∃ rd, readSong file = some rd ∧ sd.data = rd.seq) ∧
+        ∀ s, LinkSpec.parseMds file = some s → ∃ r, LinkSpec.songOk bank (getPcmData l) i s = .ok r := by
+  obtain ⟨hsongs, hnd, _, _⟩ := C10_pcm_histories m bk hm hm24 hb ops l hrun
+  intro i sd hs
+  obtain ⟨name, file, rd, hop, hrd, hname, hdata, hall⟩ := hsongs sd (List.mem_of_getElem? hs)
+  refine ⟨name, file, hop, hname, ⟨rd, hrd, hdata⟩, ?_⟩
+  intro s hparse
+  obtain ⟨rd', r1, r2, r3, r4, r5, r6, r7, r8⟩ := readSong_of_parseMds file s hparse
+  rw [hrd] at r1
+  have hrr : rd = rd' := Option.some.inj r1
+  subst hrr
+  have hlen := laid_bank_small (getSeqData_laid l bank hseq) hnd
+  have hA : All2 (SlotServed l) sd.patch s.slots := by
+    rw [← r4]
+    refine hall.map_right (toSlot rd.pcmd) ?_
+    intro q c hc hserves
+    exact served_of_serves l hlen rd q c hc hserves
+  obtain ⟨o, es, h, _⟩ := songOk_of l bank hseq hnd hbl i sd hs s (by rw [hdata, r2]) (by omega) hA r5 r6
+  exact ⟨_, h⟩
+
+/-- the hypotheses are met by the two-file history above (song 2 is file B, three slots, two of them PCM) -/
+example : ∃ bank, getSeqData exLinked = .ok bank ∧ bank.length < 4294967296 ∧ exLinked.songs.length = 2 := by
+  have h : (match getSeqData exLinked with | .ok b => decide (b.length < 4294967296) | .error _ => false) = true := by decide +kernel
+  cases hg : getSeqData exLinked with
+  | error e => rw [hg] at h; cases h
+  | ok b =>
+    rw [hg] at h
+    exact ⟨b, rfl, by simpa using h, by decide +kernel⟩
+
+/-! ### song order and the resolver's loop over all songs -/
+
+/-- The linker's group key is the spec's group symbol and its map order is the spec's dictionary
+order: `keyify_string` = `symbolOf` (blanks to `_`, letters upper-cased, digits and `_` kept, the rest
+dropped, `_` before a leading digit), default group `BGM`, and `std::string::operator<` on two keys
+holds exactly when the spec's byte-wise dictionary order does and the keys differ. -/
+theorem C10_group_key_agrees :
+    (∀ s : Bytes, keyify s = LinkSpec.symbolOf s) ∧ (∀ g : Bytes, groupKey g = LinkSpec.groupOf g) ∧
+    (∀ a b : Bytes, bytesLt a b = true ↔ (LinkSpec.lexLe (a.map (·.toNat)) (b.map (·.toNat)) = true ∧ a ≠ b)) :=
+  ⟨keyify_eq, groupKey_eq, bytesLt_iff⟩
+
+example : groupKey [49, 117, 112, 33] = [95, 49, 85, 80] ∧ bytesLt [66, 71, 77] [83, 70, 88] = true := by decide
+
+/-- Song numbers and the resolver's loop (PARTIAL: a linked bank below 4 GiB).  For every list of files the spec reader accepts
+(`songs` = what it reads), linked by a fresh linker without error: the songs of the bank in song-number
+order are exactly the spec's `ordered songs` (group symbols in dictionary order, input order inside a
+group), song for song — `Paired`: same sequence bytes, every patch entry serving the corresponding slot —
+and the resolver's whole per-song loop `mapM' songOk (enumFrom 0 (ordered songs))` returns ok.  This is
+`resolveBank` up to its header-field, span/area and list-level stored-once checks. -/
+theorem C10_resolver_songs_partial (m bk : Nat) (hm : 0 < m) (hm24 : m < 16777216) (hb : bk < 1073741824)
+    (files : List (Bytes × Bytes)) (songs : List LinkSpec.SongIn) (l : Linker) (bank : Bytes)
+    (hparse : files.map (fun f => LinkSpec.parseMds f.2) = songs.map some)
+    (hrun : runOps (files.map fun f => Op.add f.1 f.2) (Linker.fresh m bk) = .ok l)
+    (hseq : getSeqData l = .ok bank) (hbl : bank.length < 4294967296) :
+    All2 (Paired l) (LinkSpec.ordered songs) l.songs ∧
+    ∃ rs, LinkSpec.mapM' (fun p => LinkSpec.songOk bank (getPcmData l) p.1 p.2) (LinkSpec.enumFrom 0 (LinkSpec.ordered songs)) = .ok rs ∧
+      rs.length = (LinkSpec.ordered songs).length :=
+  ⟨(songs_in_order m bk hm hm24 hb files songs l bank hparse hrun hseq).1,
+   resolver_songs m bk hm hm24 hb files songs l bank hparse hrun hseq hbl⟩
+
+/-- the hypotheses are met by the two example files (both accepted by the spec reader; file B has a PCM slot
+with start offset 4) -/
+example : ∃ songs : List LinkSpec.SongIn, [(([97] : Bytes), exFileA), ([98], exFileB)].map (fun f => LinkSpec.parseMds f.2) = songs.map some ∧
+    songs.length = 2 ∧ ((LinkSpec.parseMds exFileB).getD ⟨[], [], []⟩).slots.any (fun sl => sl.start == 4) = true := by
+  have hA : (LinkSpec.parseMds exFileA).isSome = true := by decide +kernel
+  have hB : (LinkSpec.parseMds exFileB).isSome = true := by decide +kernel
+  refine ⟨[(LinkSpec.parseMds exFileA).getD ⟨[], [], []⟩, (LinkSpec.parseMds exFileB).getD ⟨[], [], []⟩], ?_, rfl, by decide +kernel⟩
+  simp only [List.map_cons, List.map_nil]
+  rw [← some_getD _ _ hA, ← some_getD _ _ hB]
+
+/-! ### the resolver accepts the linked banks -/
+
+/-- The bank half of `C10_full_statement` (PARTIAL — extra hypotheses beyond those of the full statement:
+`hbl`, the linked sequence bank is shorter than 4 GiB, the range of its 32-bit offsets; `hcnt`, fewer than
+65536 songs, the range of the 16-bit song count in the bank header).  For every list of files the spec reader accepts,
+linked by `MDSDRV_Linker()` without error, with a successful `get_seq_data`: the spec's executable
+resolver `LinkSpec.resolveBank` — bank header (magic, version, song count, end of the sequence area),
+every song in group then input order through the table (sequence bytes unchanged outside the pointer
+slots, every slot's pointer word with its flag bit, data entry byte-identical, PCM header with pitch code
+and size, PCM region in `get_pcm_data` equal to the sample), songs in increasing non-overlapping spans
+inside the sequence area, data entries inside the data area in front of the first song, identical data
+stored once and different data never merged, wave-table offset inside the bank — returns `.ok ()`. -/
+theorem C10_full_bank_partial (files : List (Bytes × Bytes)) (songs : List LinkSpec.SongIn) (l : Linker) (bank : Bytes)
+    (hparse : files.map (fun f => LinkSpec.parseMds f.2) = songs.map some)
+    (hrun : runOps (files.map fun f => Op.add f.1 f.2) Linker.new = .ok l)
+    (hseq : getSeqData l = .ok bank) (hbl : bank.length < 4294967296) (hcnt : songs.length < 65536) :
+    LinkSpec.resolveBank songs bank (getPcmData l) = .ok () := by
+  rw [Linker.new_eq] at hrun
+  exact resolveBank_ok Tables.mds_linkWaveRom Tables.mds_linkWaveBank (by decide) (by decide) (by decide)
+    files songs l bank hparse hrun hseq hbl hcnt
+
+/-- the same for any fresh linker (any rom below 2^24 bytes, any bank size); met by the two example files
+on the 64-byte rom: `resolveBank` evaluates to ok on that linked output -/
+theorem C10_full_bank_fresh_partial (m bk : Nat) (hm : 0 < m) (hm24 : m < 16777216) (hb : bk < 1073741824)
+    (files : List (Bytes × Bytes)) (songs : List LinkSpec.SongIn) (l : Linker) (bank : Bytes)
+    (hparse : files.map (fun f => LinkSpec.parseMds f.2) = songs.map some)
+    (hrun : runOps (files.map fun f => Op.add f.1 f.2) (Linker.fresh m bk) = .ok l)
+    (hseq : getSeqData l = .ok bank) (hbl : bank.length < 4294967296) (hcnt : songs.length < 65536) :
+    LinkSpec.resolveBank songs bank (getPcmData l) = .ok () :=
+  resolveBank_ok m bk hm hm24 hb files songs l bank hparse hrun hseq hbl hcnt
+
+def exFiles : List (Bytes × Bytes) := [([97], exFileA), ([98], exFileB)]
+def exL2 : Linker := okOr (runOps (exFiles.map fun f => Op.add f.1 f.2) (Linker.fresh 64 16))
+def exBank2 : Bytes := match getSeqData exL2 with
+  | .ok b => b
+  | .error _ => []
+theorem exBank2_ok : getSeqData exL2 = .ok exBank2 := by
+  have h : (match getSeqData exL2 with | .ok _ => true | .error _ => false) = true := by decide +kernel
+  unfold exBank2
+  generalize getSeqData exL2 = g at h ⊢
+  cases g with
+  | ok b => rfl
+  | error e => cases h
+
+example : runOps (exFiles.map fun f => Op.add f.1 f.2) (Linker.fresh 64 16) = .ok exL2 ∧ getSeqData exL2 = .ok exBank2 ∧
+    exBank2.length < 4294967296 := ⟨ok_of_isOk _ (by decide +kernel), exBank2_ok, by decide +kernel⟩
+
+/-- The header half of `C10_full_statement` (PARTIAL — extra hypothesis `hcnt`: fewer than 65536 songs, the
+range of the 16-bit identifier values).  Both generated headers
+exist (unique_string terminates) and the spec's header reader `LinkSpec.resolveHeaders` accepts them:
+both texts end with a newline and split into lines of the two formats `NAME = value` /
+`#define NAME value` with the same definitions, every name is a valid symbol, no name is defined
+twice, and per group of the spec's group order there is a MIN equal to the first song number, one
+definition per song with consecutive numbers whose name begins with `<group>_`, and a MAX equal to
+the last song number. -/
+theorem C10_full_headers_partial (m bk : Nat) (hm : 0 < m) (hm2 : m < 1073741824) (hb : bk < 1073741824)
+    (files : List (Bytes × Bytes)) (songs : List LinkSpec.SongIn) (l : Linker)
+    (hparse : files.map (fun f => LinkSpec.parseMds f.2) = songs.map some)
+    (hrun : runOps (files.map fun f => Op.add f.1 f.2) (Linker.fresh m bk) = .ok l) (hcnt : songs.length < 65536) :
+    ∃ a c, asmHeader l = some a ∧ cHeader l = some c ∧ LinkSpec.resolveHeaders songs a c = .ok () := by
+  obtain ⟨ds, hd, hnodup, hok, _⟩ := C10_identifiers_unique_valid l
+  obtain ⟨hgroups, hkeys⟩ := seqBank_groups m bk hm hb hm2 files songs l hparse hrun
+  have hn := songs_length_eq m bk files songs l hparse hrun
+  exact resolveHeaders_of l songs ds hd hnodup hok hgroups hkeys (by
+    rw [songCount_eq]; simp only [Linker.songs] at hn; omega)
+
+/-- `C10_full_statement` with two extra hypotheses (PARTIAL): `hbl`, the linked sequence bank is shorter
+than 4 GiB (32-bit offsets in the bank), and `hcnt`, fewer than 65536 songs (16-bit song count and
+identifier values).  For every list of files the
+spec reader accepts that `MDSDRV_Linker()` links without error and whose `get_seq_data` succeeds, the
+spec resolver accepts the linked sequence bank with the linked PCM bank, and the header reader accepts
+both generated headers. -/
+theorem C10_full_partial (files : List (Bytes × Bytes)) (songs : List LinkSpec.SongIn) (l : Linker) (bank : Bytes)
+    (hparse : files.map (fun f => LinkSpec.parseMds f.2) = songs.map some)
+    (hrun : runOps (files.map fun f => Op.add f.1 f.2) Linker.new = .ok l) (hseq : getSeqData l = .ok bank)
+    (hbl : bank.length < 4294967296) (hcnt : songs.length < 65536) :
+    LinkSpec.resolveBank songs bank (getPcmData l) = .ok () ∧
+    ∃ a c, asmHeader l = some a ∧ cHeader l = some c ∧ LinkSpec.resolveHeaders songs a c = .ok () := by
+  refine ⟨C10_full_bank_partial files songs l bank hparse hrun hseq hbl hcnt, ?_⟩
+  rw [Linker.new_eq] at hrun
+  exact C10_full_headers_partial Tables.mds_linkWaveRom Tables.mds_linkWaveBank (by decide) (by decide) (by decide)
+    files songs l hparse hrun hcnt
+
 /-- The full statement of C10 over the model, kept for the record: for every list of well-formed
 MDS files (as read by the spec's own reader, any PCM start offsets) that the linker accepts, the
 spec resolver accepts the linked sequence bank with the linked PCM bank, and the header reader
-accepts both headers.  Proved of it (theorems above): the layout of get_seq_data for every linker
-state (songs found through the table, bytes unchanged outside slots, every slot relocated to its
-bank entry, entries byte-identical in the bank), add_unique_data (stored once / never merged),
-the group-ordered insertion, identifier generation (termination, validity, uniqueness, values),
-query independence, and one PCM re-homing step on top of C14's allocator invariant.  NOT proved:
-(a) that `addSong`'s chunk walk over `Model/Riff` yields exactly the entries `parseMds` reads
-(the two readers are tied by the correspondence check and the judge only); (b) the composition
-of the single-step PCM theorem over whole histories (needs `Wave.Inv` threaded through
-`walkDblk`/`runOps`; C14_content_stable gives the step); (c) `storedOnce` of the resolver for
-PCM headers (equal headers ⇔ equal window and pitch code). -/
+accepts both headers.  PROVED as `C10_full_partial` with two extra hypotheses; as stated here it does not
+hold without them (by reading; no witness is proved, the smallest ones are far too large to evaluate): (1) the linked bank is shorter than 4 GiB — song and wave-table offsets are
+written as 32-bit words (`be32` truncates; the C++ computes them in an `int`); (2) fewer than 65536
+songs — the bank header carries the song count, and the headers the song numbers, in 16 bits
+(`write_be16(data, 6, get_seq_count())`, `uint16_t value`): the 65536th song makes the count read 0.
+Neither limit is checked by the linker; both are far outside anything the tools are used for, and the
+check's assumptions list the first. -/
 def C10_full_statement : Prop :=
   ∀ (files : List (Bytes × Bytes)) (songs : List LinkSpec.SongIn) (l : Linker) (bank : Bytes),
     files.map (fun f => LinkSpec.parseMds f.2) = songs.map some →
